@@ -363,7 +363,7 @@ theorem stmt_semF {ctx : Ctx} {T : List FEntry} {B : Nat} (hT : TableOK T) (hctx
       rw [flats_append]
       refine (hli.mono (by omega)).append ?_
       simp only [flats, flat, List.append_nil, List.singleton_append]
-      refine LinesOK.cons ⟨fun y hy => ?_, fun nm ar e' => by cases e'⟩ (LinesOK.cons (sline_plain _ _ _ _ rfl rfl) ?_)
+      refine LinesOK.cons ⟨fun y hy => ?_, fun nm ar e' => (by cases e'), rfl⟩ (LinesOK.cons (sline_plain _ _ _ _ rfl rfl) ?_)
       · simp only [lineTargets, List.mem_singleton] at hy
         exact Or.inr (Or.inr (Or.inr (Or.inr ⟨s1.forCounter, by omega, hy⟩)))
       · rw [flats_append, flats_append, flats_simples]
@@ -457,7 +457,7 @@ theorem incr_semF {ctx : Ctx} {T : List FEntry} {B : Nat} (hT : TableOK T) (hctx
       simp only [flats, flat, flatElifs, flatElse, List.append_nil, List.nil_append]
       show LinesOK ctx (s.forCounter + mi) (tnames T) (Line.incrStart n :: ((flats ci ++ [Line.fi]) ++ [Line.incrFlagSet n]))
       refine LinesOK.cons (sline_plain _ _ _ _ rfl rfl) (LinesOK.append (LinesOK.append (hlci.mono (by omega)) (linesOK_plain1 _ _ _ _ rfl rfl)) ?_)
-      refine LinesOK.cons ⟨fun y hy => ?_, fun nm ar e' => by cases e'⟩ (LinesOK.nil _ _ _)
+      refine LinesOK.cons ⟨fun y hy => ?_, fun nm ar e' => (by cases e'), rfl⟩ (LinesOK.nil _ _ _)
       simp only [lineTargets, List.mem_singleton] at hy
       exact Or.inr (Or.inr (Or.inr (Or.inr ⟨n, by omega, hy⟩)))
     · intro fuel cb o c2 hs m hi hfl
